@@ -1080,8 +1080,10 @@ int uv_spawn(uv_loop_t* loop,
     if (err == 0)
       continue;
 
-    while (i--)
+    while (i--) {
       uv__process_close_stream(options->stdio + i);
+      pipes[i][0] = -1;  /* Closed by uv__stream_close(), don't close it again. */
+    }
 
     goto error;
   }
